@@ -95,8 +95,10 @@ def _h_aio(world: World) -> None:
     shape = world.pick("shape", ["eager", "wtr", "mirror"])
     caps = [1 << 20, 65536, 16384, 4096, 2048]
     big = 4 << 20
-    cap_l2p = caps[world.choose("cap_l2p", len(caps))]
-    cap_p2l = caps[world.choose("cap_p2l", len(caps))]
+    # a third of the runs are "calm": no fragmentation, delay, back-pressure or selector perturbation (exact baseline)
+    calm = world.choose("swarm", 3) == 0
+    cap_l2p = 1 << 20 if calm else caps[world.choose("cap_l2p", len(caps))]
+    cap_p2l = 1 << 20 if calm else caps[world.choose("cap_p2l", len(caps))]
     big_ok = True
     a_writes = _gen_writes(world, "A", big_ok)
     b_writes = _gen_writes(world, "B", big_ok)
@@ -109,8 +111,8 @@ def _h_aio(world: World) -> None:
             w["size"] = max(w["size"], 17)
     net = SimNet(world)
     backend = SimAsyncIOBackend(net)
-    d_l2p = Delivery.draw(world, "l2p")
-    d_p2l = Delivery.draw(world, "p2l")
+    d_l2p = Delivery() if calm else Delivery.draw(world, "l2p")
+    d_p2l = Delivery() if calm else Delivery.draw(world, "p2l")
     for d, tot in ((d_l2p, sum(w["size"] for w in a_writes)), (d_p2l, sum(w["size"] for w in b_writes))):
         if d.frag in (1, 3) and len(d.delays) > 2:
             d.delays = (0, 1)  # tiny fragments with long per-fragment delays only cost simulation time
@@ -125,7 +127,7 @@ def _h_aio(world: World) -> None:
     lib, psock = net.socketpair(capacity_ab=cap_l2p, capacity_ba=cap_p2l, delivery_ab=d_l2p, delivery_ba=d_p2l)
     if cap_l2p < (1 << 20) or cap_p2l < (1 << 20):
         world.fault("capacity_small")
-    net.short_write_den = [0, 0, 6][world.choose("short", 3)]
+    net.short_write_den = 0 if calm else [0, 0, 6][world.choose("short", 3)]
     A = [_payload(seed16, "A", i, w["size"]) for i, w in enumerate(a_writes)]
     B = [_payload(seed16, "B", i, w["size"]) for i, w in enumerate(b_writes)]
     A2 = [_payload(seed16, "A2", i, w["size"]) for i, w in enumerate(a2_writes)]
@@ -185,7 +187,8 @@ def _h_aio(world: World) -> None:
         state[name + ".tls"] = tls
 
     async def main() -> None:
-        swarm_selector(world, asyncio.get_running_loop().sim_selector)  # type: ignore[attr-defined]
+        if not calm:
+            swarm_selector(world, asyncio.get_running_loop().sim_selector)  # type: ignore[attr-defined]
         asyncio.get_running_loop().sim_selector.spurious_den = 0  # type: ignore[attr-defined]
         if shape == "mirror":
             async with asyncio.TaskGroup() as tg:
